@@ -11,6 +11,9 @@ class DataContainer(dict):
         self._allow_compute = dict({k: True for k in self.keys()})
 
     def add(self, data: DataArray, name: str, allow_compute: bool = True) -> None:
+        # Store a shallow copy: renaming and (later) setting attributes must not
+        # alter an object that still belongs to the caller, e.g. to another model
+        data = data.copy(deep=False)
         data.name = name
         super().__setitem__(name, data)
         self._allow_compute[name] = True if allow_compute else False
